@@ -306,9 +306,11 @@ func main() {
 				partial := filepath.Join(resDir, fmt.Sprintf("shard-%d-a%d.json", sh, attempt))
 				os.Rename(resFile, partial)
 				os.Rename(strings.TrimSuffix(resFile, ".json")+".digests", strings.TrimSuffix(partial, ".json")+".digests")
-				next := idx + 1
+				// without a checkpoint nothing of this attempt was recorded:
+				// redo it from where it started (minus the fatal case)
+				next := from
 				var pr shardResult
-				if b, err := os.ReadFile(partial); err == nil && json.Unmarshal(b, &pr) == nil && pr.NextCase <= idx {
+				if b, err := os.ReadFile(partial); err == nil && json.Unmarshal(b, &pr) == nil && pr.NextCase <= idx+1 && pr.NextCase >= from {
 					next = pr.NextCase
 				}
 				if code == 4 {
